@@ -365,10 +365,12 @@ def _buffer_model(chk, prog):
                 reads = [c for c in o.st.events if c[0] == 'call' and c[1].endswith('::read')]
                 if len(reads) == 1 and vshow(reads[0][7][1]) in ('Add(offset, i)', 'Add(i, offset)') and vshow(reads[0][7][0]) == 'self':
                     okc = True
+    if not okc and not cl:
+        okc = _get_bytes_loop_form(prog, f)
     if okc:
         chk.ok('OB', 'get_bytes', 'element i = self.read(offset + i)')
     else:
-        chk.fail('OB', 'get_bytes', fn_loc(f), 'Buffer::get_bytes is not from_fn(|i| self.read(offset + i))', key='OB|get_bytes')
+        chk.fail('OB', 'get_bytes', fn_loc(f), 'Buffer::get_bytes is neither from_fn(|i| self.read(offset + i)) nor a loop storing self.read(offset + i) into element i of the result', key='OB|get_bytes')
     f = prog.find(r'buffer::Buffer::set_bytes$')
     st = St()
     e0 = Engine(prog, inline_depth=0)
@@ -386,3 +388,61 @@ def _buffer_model(chk, prog):
         chk.ok('OB', 'set_bytes', 'as_slice_mut()[offset..offset+N].copy_from_slice(&bytes)')
     else:
         chk.fail('OB', 'set_bytes', fn_loc(f), 'Buffer::set_bytes is not as_slice_mut()[offset..offset+N].copy_from_slice(&bytes): %s' % (detail if outs else '?'), key='OB|set_bytes')
+
+
+def _get_bytes_loop_form(prog, f):
+    """get_bytes written as `let mut b = [0; N]; for (i, x) in b.iter_mut().enumerate() { *x = self.read(offset + i) } b`: one loop over
+    enumerate(iter_mut(the result array)) (std contract: item k is (k, &mut b[k]), every k < N once); the body stores self.read(offset + k)
+    through the item reference and does nothing else; the array is returned."""
+    from ..cfg import CFG
+    from ..vra import RangeEngine
+    g = CFG(f)
+    heads = sorted({h for (_, h) in g.back_edges()})
+    if len(heads) != 1 or f['argc'] != 2:
+        return False
+    # the returned local is the array the iterator borrows
+    arrs = [i for i, l in enumerate(f['locals']) if i > f['argc'] and re.fullmatch(r'\[u8; \w+\]', l['ty'])]
+    ret_from = None
+    for b in f['blocks']:
+        for st_ in b['stmts']:
+            if 'lhs' in st_ and st_['lhs']['l'] == 0 and not st_['lhs']['p'] and st_['rv']['k'] == 'use':
+                pl = st_['rv']['a'].get('move') or st_['rv']['a'].get('copy')
+                ret_from = pl['l'] if pl and not pl['p'] else None
+    if len(arrs) != 1 or ret_from != arrs[0]:
+        return False
+    e = RangeEngine(prog, inline_depth=0)
+    st = St()
+    st.mem[(1, '#cgen')] = 3
+    outs = e.run(f, [e.sym_ref(st, 'self'), ('sym', 'offset')], st)
+    body = [o for o in outs if o.kind == 'loop-closed']
+    done = [o for o in outs if o.kind == 'return']
+    if not body or not done or len(body) + len(done) != len(outs):
+        return False
+    ITER = r'call:Enumerate::next\((?:loopiter\()?call:IntoIterator::into_iter\(call:Iterator::enumerate\(call:slice::iter_mut\(repeat\(0, 3\)\)\)\)(?:, \d+\))?\)'
+    for o in body:
+        d = [(vshow(a), v) for a, v, _ in o.st.decisions]
+        reads = [c for c in o.st.events if c[0] == 'call' and c[1].endswith('Buffer::<\'_>::read') or (c[0] == 'call' and re.search(r'buffer::Buffer(::<.*>)?::read$', c[1]))]
+        others = [c for c in o.st.events if c[0] == 'call' and c not in reads and not re.search(r'::(next|into_iter|enumerate|iter_mut)$', c[1])]
+        if len(d) != 1 or not re.fullmatch(r'discr\(%s\)' % ITER, d[0][0]) or d[0][1] != 1 or len(reads) != 1 or others:
+            return False
+        a0, a1 = vshow(reads[0][7][0]), vshow(reads[0][7][1])
+        if a0 != 'self' or not re.fullmatch(r'Add\(offset, index#\d+\)|Add\(index#\d+, offset\)', a1):
+            return False
+    for o in done:
+        d = [(vshow(a), v) for a, v, _ in o.st.decisions]
+        if len(d) != 1 or not re.fullmatch(r'discr\(%s\)' % ITER, d[0][0]) or d[0][1] != 0:
+            return False
+    # the value read is stored through the item reference: `(*byte) = move <dest of read>`
+    rd = [b['term'] for b in f['blocks'] if b['term']['k'] == 'call' and re.search(r'buffer::Buffer(::<.*>)?::read$', b['term'].get('resolved') or b['term']['callee'])]
+    if len(rd) != 1:
+        return False
+    dest = rd[0]['dest']
+    stores = []
+    for b in f['blocks']:
+        for st_ in b['stmts']:
+            if 'lhs' in st_ and [e_['k'] for e_ in st_['lhs']['p']] == ['deref'] and f['locals'][st_['lhs']['l']]['ty'] == '&mut u8':
+                pl = (st_['rv'].get('a') or {}).get('move') or (st_['rv'].get('a') or {}).get('copy')
+                stores.append(pl['l'] if pl else None)
+    if dest['p'] and [e_['k'] for e_ in dest['p']] == ['deref'] and f['locals'][dest['l']]['ty'] == '&mut u8':
+        return not stores              # read's result written straight through the reference
+    return stores == [dest['l']]
